@@ -20,6 +20,7 @@ import (
 
 	amhist "github.com/pancsta/asyncmachine-go/pkg/history"
 	am "github.com/pancsta/asyncmachine-go/pkg/machine"
+	"github.com/pancsta/asyncmachine-go/pkg/x/simhook"
 )
 
 type MatcherFn func(now *am.TimeIndex, txn *badger.Txn) []*amhist.MemoryRecord
@@ -697,6 +698,11 @@ func (m *Memory) writeDb(rLocked bool) {
 
 	// fork
 	go func() {
+		if rLocked {
+			simhook.At("hist.badger.write", "batch")
+		} else {
+			simhook.At("hist.badger.write", "sync")
+		}
 		if rLocked {
 			defer m.syncMx.RUnlock()
 		}
